@@ -1,4 +1,4 @@
-import Cppcms.C06.RefineC
+import Cppcms.C06.RefineE
 /-!
 # C06 — property theorems
 
@@ -418,6 +418,24 @@ theorem network_nodes_act_as_one_store (now t : Int) (c : Cluster) (hash : Bytes
 
 example : Gen.tcpRouteKeys = ["sid", "sid", "sid"] := by decide
 
+/-- **Exposed cookies stay in step with the session along whole histories.**  An honest browser starts with an empty
+jar; then any sequence of events follows: its own requests (it presents its jar's session cookie and the names of its
+`<prefix>_<key>` cookies, does any operations with non-empty keys, and applies every `Set-Cookie` of the answer in
+order) interleaved with requests by anybody else (any admissible cookie other than the browser's current one, any
+operations), the clock never going back.  Afterwards, at every later instant: if the jar's session cookie still denotes
+a live session, then for every key the jar's exposed cookie is exactly that session's value if the entry is exposed and
+non-empty, and absent otherwise (`specExposed`) — and the store invariant holds.  `update_exposed`'s conditions are the
+regenerated `Gen.exposed*Cond`. -/
+theorem exposed_cookies_in_step_history (cfg : Cfg) (env : Env) (bound : Nat) (now0 : Int) (evs : List Ev)
+    (he : EnvOK env) (hf : Fresh env bound) (h : HistB cfg env bound now0 ⟨⟨[], []⟩, 0, Jar.empty⟩ evs) :
+    StoreInv env (runB cfg env ⟨⟨[], []⟩, 0, Jar.empty⟩ evs).st (runB cfg env ⟨⟨[], []⟩, 0, Jar.empty⟩ evs).next ∧
+    ∀ t, lastNowB now0 evs ≤ t → ∀ ss,
+      Spec.alive t (absTok cfg env (runB cfg env ⟨⟨[], []⟩, 0, Jar.empty⟩ evs).st.recs (runB cfg env ⟨⟨[], []⟩, 0, Jar.empty⟩ evs).jar.cookie) = some ss →
+      ∀ k, k ≠ [] → jfind k (runB cfg env ⟨⟨[], []⟩, 0, Jar.empty⟩ evs).jar.exposed = specExposed ss.data k := by
+  have h0 : JarOK cfg env ⟨[], []⟩ 0 now0 Jar.empty := jarOK_nil cfg env _ 0 now0 Jar.empty rfl (fun _ hp => by cases hp)
+  obtain ⟨a, b⟩ := jar_in_step_run cfg env bound now0 ⟨⟨[], []⟩, 0, Jar.empty⟩ evs he hf (storeInv_empty env) h0 h
+  exact ⟨a, fun t ht ss hss k hk => (b.step t ht ss hss).1 k hk⟩
+
 /-- **The 10 % renewal window** as the source has it (`delta < timeout_val_ * 0.1` with
 `delta = now + timeout_val_ - timeout_in_`): an unchanged renew/browser session is not rewritten while fewer
 than a tenth of its period has passed since `timeout_in_ - timeout_val_`, the instant of the last write. -/
@@ -545,6 +563,19 @@ example : ((Jar.empty.applyAll (request (stepCtx exCfg exEnv ⟨[], [], 1000, []
 example : [doubleLess 9 100, doubleLess 10 100, doubleLess 2 30, doubleLess 3 30, doubleLess 214748364 2147483647,
     doubleLess 214748364 2147483640, doubleLess (-1) (-5), doubleLess (-1) (-10)] =
     [true, false, true, false, true, false, true, false] := by decide +kernel
+
+-- a history meeting `HistB`: the browser exposes `k`, somebody else (no cookie) creates a session, the browser hides `k`
+example : HistB exCfg exEnv 16 1000 ⟨⟨[], []⟩, 0, Jar.empty⟩
+    [.own 1000 [.set [107] [118], .expose [107]], .other ⟨[], [], 1001, [.set [97] [98]]⟩, .own 1002 [.hide [107]]] := by
+  refine ⟨by decide, by decide +kernel, ?_, by decide, by decide +kernel, ⟨?_, ?_⟩, by decide, by decide +kernel, ?_, trivial⟩
+  · intro op hop; simp at hop; rcases hop with rfl | rfl <;> simp [opKeyNE]
+  · intro p hp; simp [cookiePayload] at hp
+  · decide +kernel
+  · intro op hop; simp at hop; subst hop; simp [opKeyNE]
+example : ((runB exCfg exEnv ⟨⟨[], []⟩, 0, Jar.empty⟩ [.own 1000 [.set [107] [118], .expose [107]]]).jar.exposed,
+    (runB exCfg exEnv ⟨⟨[], []⟩, 0, Jar.empty⟩
+      [.own 1000 [.set [107] [118], .expose [107]], .other ⟨[], [], 1001, [.set [97] [98]]⟩, .own 1002 [.hide [107]]]).jar.exposed) =
+    ([([107], [118])], []) := by decide +kernel
 
 /-! ### known finding: working values set before `clear()` are used but not persisted
 
